@@ -65,7 +65,7 @@ Record obs := mkObs { o_rw : nat; o_q : list (F * F * F * F); o_x : list F; o_y 
 Inductive observed := OMap (o : obs) | OErr (e : err).
 Inductive case :=
 | KAng (f : angfile (T:=F)) (hdr : list (angline (T:=F))) (rows : list (list (num (T:=F)))) (o : observed)
-| KCtf (f : ctffile (T:=F)) (hdr : list (ctfline (T:=F))) (rows : list (list (num (T:=F)))) (stops : list Z) (o : observed)
+| KCtf (f : ctffile (T:=F)) (hdr : list (ctfline (T:=F))) (rows : list (list (num (T:=F)))) (o : observed)
 | KBruker (f : bfile (T:=F)) (t : btok (T:=F)) (o : observed)
 | KEmsoft (refined : bool) (f : efile (T:=F)) (t : etok (T:=F)) (o : observed)
 | KSgPg (n : Z) (name : string)
@@ -109,8 +109,8 @@ Definition diag (c : case) : list bool :=
   match c with
   | KAng f hdr rows o =>
       let '(h, r) := render_ang f in diag_res (parse_ang FOps h r) o ++ diag_res (parse_ang FOps hdr rows) o
-  | KCtf f hdr rows stops o =>
-      let '(h, r) := render_ctf f in diag_res (parse_ctf FOps h r stops) o ++ diag_res (parse_ctf FOps hdr rows stops) o
+  | KCtf f hdr rows o =>
+      let '(h, r) := render_ctf f in diag_res (parse_ctf FOps h r) o ++ diag_res (parse_ctf FOps hdr rows) o
   | KBruker f t o => diag_res (parse_bruker FOps (render_bruker FOps f)) o ++ diag_res (parse_bruker FOps t) o
   | KEmsoft rf f t o => diag_res (parse_emsoft FOps rf (render_emsoft FOps f)) o ++ diag_res (parse_emsoft FOps rf t) o
   | KSgPg n name => [String.eqb (sg_pg n) name]
@@ -127,8 +127,7 @@ def case_coq(c):
     if k == "ang":
         return f"KAng {coq(c['file'])} {coq(c['tokens'][0])} {coq(c['tokens'][1])} {obs_coq(c['obs'])}"
     if k == "ctf":
-        return (f"KCtf {coq(c['file'])} {coq(c['tokens'][0])} {coq(c['tokens'][1])} {coq(c['extra']['stops'])} "
-                f"{obs_coq(c['obs'])}")
+        return f"KCtf {coq(c['file'])} {coq(c['tokens'][0])} {coq(c['tokens'][1])} {obs_coq(c['obs'])}"
     if k == "bruker":
         return f"KBruker {coq(c['file'])} {coq(c['tokens'])} {obs_coq(c['obs'])}"
     if k == "emsoft":
@@ -188,7 +187,6 @@ def run(tier, seed, only=None):
         "Coq renderer through the model on every case)",
         "np.loadtxt / float() as exact decimal parsing of repr() output; h5py as a faithful store",
         "space group -> point group name (diffpy table) and reader selection: compared exhaustively each run",
-        "CrystalMap helper _data_slices_from_coordinates enters the ASTAR .ctf model as an observed input",
         "FInst float evaluator and generated eu2qu kernel (rotation comparison only)"]
     ck.assumptions += [
         "regular expressions of the readers are modelled at token level (line kinds / fields); character classes "
@@ -229,8 +227,8 @@ def run(tier, seed, only=None):
         "ctf: Oxford, Bruker decimal comma, EMsoft, ASTAR, MTEX; h5ebsd: Bruker with/without ROI index datasets and "
         "file order = grid / shuffled within rows / rows shuffled, EMsoft top-match and refined): grids 1..5 x 1..7 "
         "incl. single row/column, 1-3 phases with id order/gaps, subsets of phases used, not-indexed points, random "
-        "header whitespace and free lines, unexpected column counts, Laue class 10, non-centrosymmetric space "
-        "groups, TSL code 62; every case is loaded by orix.io.load, compared with the Coq model (on the Coq "
+        "header whitespace and free lines, unexpected column counts, all 11 Laue classes, centrosymmetric and "
+        "non-centrosymmetric space groups, TSL code 62; every case is loaded by orix.io.load, compared with the Coq model (on the Coq "
         "rendering and on the shim's tokens) and checked field by field by the oracle; distinct = distinct "
         "abstract file; the 230 space groups and 43 reader-selection inputs are counted as trivial table cases")
     return ck.finish()
